@@ -169,6 +169,9 @@ pub struct Shared {
     pub wrote_after_failure: bool,
     pub reads: u64,
     pub writes: u64,
+    /// trace mode: outcomes are drawn from this generator instead of the offset schedule, and recorded
+    pub random: Option<rand::rngs::StdRng>,
+    pub events: Vec<Value>,
 }
 
 impl Shared {
@@ -191,6 +194,7 @@ impl Shared {
 
 #[derive(Clone)]
 pub struct MockIo(pub Arc<Mutex<Shared>>);
+impl std::fmt::Debug for MockIo { fn fmt(&self, f: &mut std::fmt::Formatter<'_>) -> std::fmt::Result { f.write_str("MockIo") } }
 
 impl AsyncRead for MockIo {
     fn poll_read(self: Pin<&mut Self>, cx: &mut Context<'_>, buf: &mut [u8]) -> Poll<io::Result<usize>> {
@@ -199,19 +203,36 @@ impl AsyncRead for MockIo {
         s.parked_on_read = false;
         // watchdog: a task that keeps calling the transport without ever yielding spins inside one poll
         if s.reads > 4 * s.wire.len() as u64 + 4000 { panic!("spin: transport read polled {} times for {} bytes of input", s.reads, s.wire.len()); }
-        if buf.is_empty() { return Poll::Ready(Ok(0)); }
-        if s.fault.k == "rerr" && s.fault.at == s.in_read { return Poll::Ready(Err(io::Error::new(io::ErrorKind::Other, "injected read error"))); }
+        if buf.is_empty() { if s.random.is_some() { s.events.push(json!({"e": "r0"})); } return Poll::Ready(Ok(0)); }
+        if s.fault.k == "rerr" && s.fault.at == s.in_read { if s.random.is_some() { s.events.push(json!({"e": "re"})); } return Poll::Ready(Err(io::Error::new(io::ErrorKind::Other, "injected read error"))); }
         let released = s.released();
         let avail = released - s.in_read;
         if avail == 0 {
-            if s.at_eof() { return Poll::Ready(Ok(0)); }
+            if s.at_eof() { if s.random.is_some() { s.events.push(json!({"e": "r0"})); } return Poll::Ready(Ok(0)); }
             s.parked_on_read = true;
             let at = s.in_read;
             if s.stop_at.remove(&('p', at)) { s.stop_now = true; s.self_wake = true; }
+            if s.random.is_some() { s.events.push(json!({"e": "park", "stop": false})); }
             let _ = cx;
             return Poll::Pending;
         }
         let at = s.in_read;
+        if let Some(rng) = s.random.as_mut() {
+            use rand::Rng;
+            let cap = buf.len().min(avail);
+            if rng.gen_bool(0.04) && !s.rpend.contains(&at) {
+                s.rpend.insert(at);
+                s.self_wake = true;
+                s.events.push(json!({"e": "rp", "stop": false}));
+                return Poll::Pending;
+            }
+            let rng = s.random.as_mut().expect("rng");
+            let n = match rng.gen_range(0..6) { 0 => 1, 1 => cap.min(rng.gen_range(1..=9)), 2 | 3 => cap, _ => rng.gen_range(1..=cap) };
+            buf[..n].copy_from_slice(&s.wire[at..at + n]);
+            s.in_read += n;
+            s.events.push(json!({"e": "r", "n": n}));
+            return Poll::Ready(Ok(n));
+        }
         if s.rpend.remove(&at) {
             s.self_wake = true;
             if s.stop_at.remove(&('r', at)) { s.stop_now = true; }
@@ -235,9 +256,25 @@ impl MockIo {
         let at = s.out.len();
         if (s.fault.k == "werr" || s.fault.k == "wzero") && s.fault.at == at && total > 0 {
             s.write_failed = true;
+            if s.random.is_some() { let kind = if s.fault.k == "werr" { "Other" } else { "WriteZero" }; s.events.push(json!({"e": "we", "kind": kind})); }
             return if s.fault.k == "werr" { Poll::Ready(Err(io::Error::new(io::ErrorKind::Other, "injected write error"))) } else { Poll::Ready(Ok(0)) };
         }
         if total == 0 { return Poll::Ready(Ok(0)); }
+        if let Some(rng) = s.random.as_mut() {
+            use rand::Rng;
+            if rng.gen_bool(0.04) && !s.wpend.contains(&at) {
+                s.wpend.insert(at);
+                s.self_wake = true;
+                s.events.push(json!({"e": "wp", "stop": false}));
+                return Poll::Pending;
+            }
+            let rng = s.random.as_mut().expect("rng");
+            let mut k = match rng.gen_range(0..6) { 0 => 1, 1 => total.min(rng.gen_range(1..=9)), 2 | 3 => total, _ => rng.gen_range(1..=total) };
+            let accepted = k;
+            for b in bufs { let take = b.len().min(k); s.out.extend(&b[..take]); k -= take; if k == 0 { break; } }
+            s.events.push(json!({"e": "w", "k": accepted}));
+            return Poll::Ready(Ok(accepted));
+        }
         if s.wpend.remove(&at) {
             s.self_wake = true;
             if s.stop_at.remove(&('w', at)) { s.stop_now = true; }
@@ -297,6 +334,7 @@ pub struct LogEntry {
 /// What the real handler observed for one op.
 #[derive(Debug, Clone, Default)]
 pub struct RealEntry {
+    pub active: u8,
     pub op: String, pub ok: bool, pub n: usize, pub bytes: Vec<u8>, pub err: String, pub wr: bool,
     pub id: u16, pub role: u16, pub flags: u8, pub env: Vec<(String, Vec<u8>)>, pub env_checks: Vec<String>,
 }
@@ -330,7 +368,10 @@ async fn run_prog(req: &mut Request<'_, MockIo, MockIo>, st: Arc<Mutex<HandlerSt
             let v = req.get_var(VarName::new(name)).map(<[u8]>::to_vec);
             checks.push(format!("{name}={}", v.map_or("<none>".to_string(), |b| hex(&b))));
         }
-        push(RealEntry { op: "begin".into(), ok: true, n: env.len(), wr: req.is_writeable(), role: u16::from(req.role()), flags: req.flags().bits(), env, env_checks: checks, ..Default::default() });
+        // the request id has no accessor; it is part of the Debug rendering of the embedded parser::Request
+        let dbg = format!("{req:?}");
+        let id = dbg.find("request_id: ").and_then(|i| dbg[i + 12..].split(|c: char| !c.is_ascii_digit()).next().and_then(|d| d.parse::<u16>().ok())).unwrap_or(0);
+        push(RealEntry { op: "begin".into(), ok: true, n: env.len(), id, wr: req.is_writeable(), role: u16::from(req.role()), flags: req.flags().bits(), env, env_checks: checks, ..Default::default() });
     }
     let fail = |req: &Request<'_, MockIo, MockIo>, op: &str, e: io::Error| -> (RealEntry, io::Error) {
         (RealEntry { op: op.into(), ok: false, err: err_kind(&e), wr: req.is_writeable(), ..Default::default() }, e)
@@ -347,16 +388,17 @@ async fn run_prog(req: &mut Request<'_, MockIo, MockIo>, st: Arc<Mutex<HandlerSt
         match op.op.as_str() {
             "read" | "readall" => loop {
                 let mut buf = vec![0u8; op.a];
+                let act = crate::sp::stream_code(req.active_stream());
                 match req.read(&mut buf).await {
-                    Ok(n) => { push(RealEntry { op: "read".into(), ok: true, n, bytes: buf[..n].to_vec(), wr: req.is_writeable(), ..Default::default() });
+                    Ok(n) => { push(RealEntry { active: act, op: "read".into(), ok: true, n, bytes: buf[..n].to_vec(), wr: req.is_writeable(), ..Default::default() });
                         if op.op == "read" || n == 0 { break; } },
                     Err(e) => bail!(req, "read", e),
                 }
             },
-            "fill" => match req.fill_buf().await {
-                Ok(b) => { let bytes = b.to_vec(); push(RealEntry { op: "fill".into(), ok: true, n: bytes.len(), bytes, wr: req.is_writeable(), ..Default::default() }); },
+            "fill" => { let act = crate::sp::stream_code(req.active_stream()); match req.fill_buf().await {
+                Ok(b) => { let bytes = b.to_vec(); push(RealEntry { active: act, op: "fill".into(), ok: true, n: bytes.len(), bytes, wr: req.is_writeable(), ..Default::default() }); },
                 Err(e) => bail!(req, "fill", e),
-            },
+            } },
             "consume" => { req.consume_unpin(op.a); push(RealEntry { op: "consume".into(), ok: true, n: op.a, wr: req.is_writeable(), ..Default::default() }); },
             "setstream" => {
                 let s = stream_of(op.s);
@@ -374,7 +416,7 @@ async fn run_prog(req: &mut Request<'_, MockIo, MockIo>, st: Arc<Mutex<HandlerSt
                 let r = w.write_all(&data).await;
                 drop(w);
                 match r {
-                    Ok(()) => push(RealEntry { op: "write".into(), ok: true, n: op.a.min(65535), wr: req.is_writeable(), ..Default::default() }),
+                    Ok(()) => push(RealEntry { op: "write".into(), ok: true, n: op.a, wr: req.is_writeable(), ..Default::default() }),
                     Err(e) => bail!(req, "write", e),
                 }
             },
@@ -436,7 +478,10 @@ pub fn owed_up_to(w: &Wire, lim: u64) -> usize {
 }
 
 /// Runs Token::run on the scenario under the schedule derived from `h`.
-pub fn execute(case: &Case, h: &[Vec<Value>]) -> RunResult {
+pub fn execute(case: &Case, h: &[Vec<Value>]) -> RunResult { execute_with(case, h, None).0 }
+
+/// `random`: trace mode (transport outcomes drawn at random and recorded); returns the recorded events.
+pub fn execute_with(case: &Case, h: &[Vec<Value>], random: Option<rand::rngs::StdRng>) -> (RunResult, Vec<Value>) {
     // schedule by offset
     let (mut in_off, mut out_off) = (0usize, 0usize);
     let mut rcuts = BTreeSet::new(); let mut wcuts = BTreeSet::new();
@@ -459,7 +504,7 @@ pub fn execute(case: &Case, h: &[Vec<Value>]) -> RunResult {
     let shared = Arc::new(Mutex::new(Shared {
         wire: case.bytes.clone(), gates: case.scen.gates.clone(), close: case.scen.close, fault: case.scen.fault.clone(),
         in_read: 0, rcuts, rpend, out: Vec::new(), wcuts, wpend, self_wake: false, stop_at, stop_now: false,
-        parked_on_read: false, write_failed: false, wrote_after_failure: false, reads: 0, writes: 0,
+        parked_on_read: false, write_failed: false, wrote_after_failure: false, reads: 0, writes: 0, random, events: Vec::new(),
     }));
     let mut config = Config::with_conns(MAX_CONNS.try_into().expect("nz"));
     config.buffer_size = case.b;
@@ -516,7 +561,8 @@ pub fn execute(case: &Case, h: &[Vec<Value>]) -> RunResult {
     let h = hstate.lock().unwrap_or_else(std::sync::PoisonError::into_inner);
     res.log = h.log.clone();
     res.calls = h.calls;
-    res
+    let events = s.events.clone();
+    (res, events)
 }
 
 pub fn owns(prop: &str, field: &str) -> bool {
@@ -767,4 +813,130 @@ pub fn replay_file(prop: &str, r: &Value, rep: &mut Report) {
     let (mm, _) = compare(&case, &b.obs, &res);
     rep.count("replay", &0u8, true);
     for m in mm { if owns(prop, m.field) { rep.violation(prop, &format!("connection replay, scenario {}: {}", case.scen.tag, m.what), r.clone()); } }
+}
+
+
+// ---------------------------------------------------------------------------
+// impl -> spec: seeded random connections recorded for Trace_Conn
+
+use crate::gen;
+
+fn random_program(r: &mut rand::rngs::StdRng, role: u16, small: bool) -> Vec<Op> {
+    use rand::Rng;
+    let st = |kind: &str, app: &str| Status { kind: kind.into(), app: app.into() };
+    let ok0 = st("complete", "0");
+    let mk = |op: &str, a: usize, s: u8| Op { op: op.into(), a, s, st: Status { kind: "complete".into(), app: "0".into() } };
+    let mut prog = Vec::new();
+    let nops = r.gen_range(0..7);
+    let mut writeable = role != 3;
+    for _ in 0..nops {
+        match r.gen_range(0..10) {
+            0 | 1 => prog.push(mk("read", gen::pick(r, &[0usize, 1, 3, 64, 5000]), 0)),
+            2 | 3 => prog.push(mk("readall", if small { gen::pick(r, &[1usize, 7, 100, 70000]) } else { gen::pick(r, &[3000usize, 70000]) }, 0)),
+            4 => { prog.push(mk("fill", 0, 0)); prog.push(mk("consume", gen::pick(r, &[1usize, 5, 100000]), 0)); },
+            5 => prog.push(mk("setstream", 0, gen::pick(r, &[5u8, 8, 8]))),
+            6 => { prog.push(mk("writeable", 0, 0)); writeable = true; },
+            7 | 8 => { if !writeable { prog.push(mk("writeable", 0, 0)); writeable = true; }
+                       prog.push(mk("write", gen::pick(r, &[0usize, 1, 7, 8, 9, 300, 65535, 66000]), gen::pick(r, &[6u8, 7]))); },
+            _ => { if writeable { prog.push(mk("flush", 0, 6)); } },
+        }
+    }
+    let status = match r.gen_range(0..4) { 0 => st("overloaded", "0"), 1 => st("unknownrole", "0"), 2 => st("complete", "42"), _ => ok0 };
+    prog.push(Op { op: "ret".into(), a: 0, s: 0, st: status });
+    prog
+}
+
+fn app_string(code: u32) -> String { if code == u32::from_be_bytes(*b"ABRT") { "ABRT".into() } else { code.to_string() } }
+
+/// Decodes the complete outbound records into the generic form Trace_Conn compares.
+fn generic_items(out: &[u8]) -> Vec<Value> {
+    let (recs, _) = decode_out(out);
+    recs.iter().map(|r| {
+        let (x, app): (u32, String) = match r.ty {
+            11 => (u32::from(*r.body.first().unwrap_or(&0)), String::new()),
+            3 => (u32::from(*r.body.get(4).unwrap_or(&0)), app_string(u32::from_be_bytes([r.body[0], r.body[1], r.body[2], r.body[3]]))),
+            10 => { let mut mask = 0u32; for (n, _) in fcgi::nv::NVIter::new(&r.body[..]) { if let Some((b, _)) = wire::VAR_NAMES.iter().find(|(_, nm)| nm.as_bytes() == n) { mask |= u32::from(*b); } } (mask, String::new()) },
+            _ => (0, String::new()),
+        };
+        json!({"ty": r.ty, "id": r.id, "clen": r.body.len(), "plen": r.plen, "x": x, "app": app})
+    }).collect()
+}
+
+/// One seeded random connection: returns the ndjson events (reset .. end) or a violation description.
+fn trace_connection(seed: u64, s: u64, b: usize) -> Result<(Vec<String>, Value), String> {
+    use rand::Rng;
+    let mut r = gen::rng(seed.wrapping_mul(9_000_011).wrapping_add(s));
+    gen::NO_BEGIN_NOISE.with(|c| c.set(true));
+    let big = b >= 4096 && r.gen_bool(0.5);
+    let (bytes, reqs) = crate::sp::gen_connection_ids(&mut r, b, big);
+    gen::NO_BEGIN_NOISE.with(|c| c.set(false));
+    let small = bytes.len() <= 3000;
+    let progs: Vec<Vec<Op>> = reqs.iter().map(|&(_, _, role)| random_program(&mut r, role, small)).collect();
+    let on_abort: Vec<Status> = reqs.iter().map(|_| if r.gen_bool(0.3) { Status { kind: "complete".into(), app: "9".into() } } else { Status { kind: "propagate".into(), app: "0".into() } }).collect();
+    let close = r.gen_bool(0.6);
+    let fault = match r.gen_range(0..6) { 0 => Fault { k: "eof".into(), at: r.gen_range(0..=bytes.len()) }, 1 => Fault { k: "werr".into(), at: r.gen_range(0..60) }, _ => Fault { k: "none".into(), at: 0 } };
+    let phases: Vec<u64> = reqs.iter().map(|x| x.0 as u64).collect();
+    let mut keys = wire::KeyTable::default();
+    let w = wire::lex_phased(&bytes, &mut keys, &phases);
+    // the client keeps at most one request outstanding: request i+1 is released after EndRequest i was observed
+    let gates: Vec<Gate> = reqs.iter().enumerate().skip(1).map(|(i, x)| Gate { at: x.0, kind: "end".into(), n: i }).collect();
+    let scen_json = json!({"tag": "random", "w": w, "gates": gates.iter().map(|g| json!({"at": g.at, "kind": g.kind, "n": g.n})).collect::<Vec<_>>(), "close": close,
+        "progs": progs.iter().map(|p| p.iter().map(|o| json!({"op": o.op, "a": o.a, "s": o.s, "st": {"kind": o.st.kind, "app": o.st.app}})).collect::<Vec<_>>()).collect::<Vec<_>>(),
+        "onAbort": on_abort.iter().map(|x| json!({"kind": x.kind, "app": x.app})).collect::<Vec<_>>(), "fault": {"k": fault.k, "at": fault.at}});
+    let scen = Scenario { tag: "random".into(), w: w.clone(), gates, close, progs, onAbort: on_abort, fault };
+    let case = Case { id: s, b, scen, seed: seed ^ s, bytes: bytes.clone(), streams: vec![] };
+    let res = execute_with(&case, &[], Some(gen::rng(seed ^ (s << 20) ^ 0xabcdef)));
+    let (r, events) = res;
+    if let Some(p) = &r.panicked { return Err(if p.starts_with("spin:") { format!("connection task spins without yielding: {p}") } else { format!("connection task panicked: {p}") }); }
+    if r.spun { return Err(format!("connection task was still being woken after {} polls", r.polls)); }
+    if r.wrote_after_failure { return Err("the transport was written to again after a failed write".into()); }
+    // handler log with delivered bytes located on the wire
+    let mut hlog = Vec::new();
+    let mut q = 0usize;
+    let mut loc = crate::sp::Locator { recs: &w.recs, bytes: &bytes, cursor: 0, dry: false };
+    let mut last_fill: Vec<u8> = Vec::new();
+    let mut own = 0u32;
+    for e in &r.log {
+        let mut got: Vec<(u64, u64)> = Vec::new();
+        let mut n = e.n;
+        match e.op.as_str() {
+            "begin" => {
+                // the request being served: the next generated request with this id
+                let k = (q..reqs.len()).find(|&k| reqs[k].1 == e.id).ok_or_else(|| format!("handler invoked for request id {} which no remaining request carries", e.id))?;
+                let (off, id, _) = reqs[k]; q = k + 1; own = u32::from(id); n = id as usize; loc.cursor = loc.cursor.max(off as u64); last_fill.clear();
+            },
+            "read" if e.ok && e.n > 0 => { got = loc.locate(&e.bytes, own, e.active).map_err(|x| format!("handler read: {x}"))?; if let Some(l) = got.last() { loc.cursor = l.1; } last_fill.clear(); },
+            "fill" if e.ok => { got = loc.locate(&e.bytes, own, e.active).map_err(|x| format!("handler fill_buf: {x}"))?; last_fill = e.bytes.clone(); },
+            "consume" => { let m = e.n.min(last_fill.len()); if m > 0 { let iv = loc.locate(&last_fill[..m], own, 0).unwrap_or_default(); let _ = iv; }
+                // advance the cursor over the consumed bytes (they were located by the preceding fill)
+                if m > 0 { if let Ok(iv) = loc.locate_any(&last_fill[..m], own) { if let Some(l) = iv.last() { loc.cursor = l.1; } } last_fill.drain(..m); } },
+            _ => {},
+        }
+        hlog.push(json!({"op": e.op, "ok": e.ok, "n": n, "got": got, "err": e.err, "wr": e.wr}));
+    }
+    let mut lines = vec![json!({"e": "reset", "scen": scen_json}).to_string(), json!({"e": "go", "stop": false}).to_string()];
+    lines.extend(events.iter().map(Value::to_string));
+    lines.push(json!({"e": "end", "returned": r.returned, "outw": r.out.len(), "items": generic_items(&r.out), "hlog": hlog, "nreq": r.calls}).to_string());
+    let summary = json!({"scenario": s, "B": b, "bytes": bytes.len(), "requests": reqs.len(), "events": events.len(), "returned": r.returned, "handler_calls": r.calls});
+    Ok((lines, summary))
+}
+
+pub fn run_trace(prop: &str, seed: u64, scenarios: u64, b: usize, path: &std::path::Path, rep: &mut Report) {
+    use std::io::Write;
+    let f = std::fs::File::create(path).unwrap_or_else(|e| { eprintln!("cannot create {}: {e}", path.display()); std::process::exit(2) });
+    let mut out = std::io::BufWriter::new(f);
+    let prev_hook = std::panic::take_hook();
+    std::panic::set_hook(Box::new(|_| {}));
+    let mut total = 0u64;
+    for s in 0..scenarios {
+        match catch_unwind(AssertUnwindSafe(|| trace_connection(seed, s, b))) {
+            Ok(Ok((lines, summary))) => { total += lines.len() as u64; for l in lines { writeln!(out, "{l}").ok(); } rep.count("connection", &s, true); rep.sample("connection", 2, || summary); },
+            Ok(Err(what)) => rep.violation(prop, &format!("connection driver (B={b}, scenario {s}): {what}"), json!({"kind": "conn-random", "seed": seed, "scenario": s, "B": b})),
+            Err(_) => rep.violation(prop, &format!("connection driver (B={b}, scenario {s}): harness panicked"), json!({"kind": "conn-random", "seed": seed, "scenario": s, "B": b})),
+        }
+    }
+    std::panic::set_hook(prev_hook);
+    out.flush().ok();
+    rep.set("trace_events", json!(total));
+    rep.set("trace_runs", json!(scenarios));
 }
